@@ -384,6 +384,64 @@ def rule_g9(repo):
                 'test(x, z) is False', '%s:%d' % (CONGC, lp.lineno))
     return res
 
+def rule_g10(repo):
+    """An explanation of s = t is a chain of equations that can be followed from s to t: up from s to the common ancestor
+    of the two in the proof forest, then *down* to t.  The paths to the root are both stored upwards, so the half taken
+    from the path of t has to be traversed in the reverse direction (the consumer follows the chain with
+    `assert b == cur_pos`; with both halves upwards the second one starts at t instead of at the ancestor, and an entailed
+    equality gets no proof).  Whatever form the two halves are written in, the one from the path of the first term is
+    not reversed and the one from the path of the second term is."""
+    res = RuleResult('C17.G10', 'the half of an explanation taken from the path of the second term is traversed downwards (reversed)', floor=1)
+    cls = repo.module(CONGC).classes['CongClosure']
+    f = need(cls.find_method('explain'), 'CongClosure.explain not found')
+    ps = f.params()
+    flow = flow_of(f.node)
+    # names of the two root paths
+    paths = {}
+    for n in ast.walk(f.node):
+        if isinstance(n, ast.Assign) and len(n.targets) == 1 and isinstance(n.targets[0], ast.Name) and isinstance(n.value, ast.Call) and \
+                call_attr(n.value) == '_path_to_root' and n.value.args and isinstance(n.value.args[0], ast.Name) and n.value.args[0].id in ps[1:3]:
+            paths[n.targets[0].id] = 'first' if n.value.args[0].id == ps[1] else 'second'
+    need(len(paths) == 2, 'CongClosure.explain: the two paths to the root not found')
+
+    def reversed_in(e):
+        e = flow.inline(e)
+        for x in ast.walk(e):
+            if isinstance(x, ast.Call) and is_name(x.func, 'reversed'):
+                return True
+            if isinstance(x, ast.Subscript) and isinstance(x.slice, ast.Slice) and isinstance(x.slice.step, ast.UnaryOp) and isinstance(x.slice.step.op, ast.USub):
+                return True
+        return False
+    found = {}
+    # loops / comprehensions that read one of the paths and contribute to the chain
+    for n in ast.walk(f.node):
+        its = []
+        if isinstance(n, ast.For):
+            its = [(n.iter, n)]
+        if isinstance(n, (ast.ListComp, ast.GeneratorExp)):
+            its = [(g.iter, n) for g in n.generators]
+        for it, holder in its:
+            names = {x.id for x in ast.walk(holder) if isinstance(x, ast.Name)}
+            which = [w for nm, w in paths.items() if nm in names]
+            if len(which) != 1:
+                continue
+            # the search for the common ancestor compares both paths: not a contribution to the chain
+            builds = any(isinstance(c, ast.Call) and call_attr(c) in ('append', 'extend') for c in ast.walk(holder)) or isinstance(holder, (ast.ListComp, ast.GeneratorExp))
+            if not builds:
+                continue
+            found.setdefault(which[0], []).append((holder, reversed_in(it)))
+    need('first' in found and 'second' in found, 'CongClosure.explain: the two halves of the chain (one per path) not found')
+    problems = []
+    if any(r for _h, r in found['first']):
+        problems.append('the half from the path of the first term is reversed')
+    if not all(r for _h, r in found['second']):
+        h = [h for h, r in found['second'] if not r][0]
+        problems.append('line %d takes the half from the path of the second term in the direction it is stored (upwards)' % h.lineno)
+    res.add('%s :: CongClosure.explain :: up-from-s-down-to-t' % CONGC, not problems,
+            'first half as stored, second half reversed' if not problems else '; '.join(problems) +
+            ': the chain for a = b, b = c, c = d asked as explain(a, d) cannot be followed from a to d, and the entailed equality gets no accepted proof', f.loc)
+    return res
+
 
 def rules(repo):
-    return [rule_g1(repo), rule_g2(repo), rule_g3(repo), rule_g4(repo), rule_g5(repo), rule_g6(repo), rule_g7(repo), rule_g8(repo), rule_g9(repo)]
+    return [rule_g1(repo), rule_g2(repo), rule_g3(repo), rule_g4(repo), rule_g5(repo), rule_g6(repo), rule_g7(repo), rule_g8(repo), rule_g9(repo), rule_g10(repo)]
